@@ -265,9 +265,25 @@ def tour(edges, init_key=None, maxseg=400, key=lambda s: json.dumps(s, sort_keys
     remaining = sum(len(v) for v in todo.values()); total = remaining
     out, seg, cur = [], [], init_key
 
-    def bfs(src):
+    # shortest path from the initial state to every state, computed once: a new segment reaches its first uncovered edge along it
+    parent = {init_key: None}; order = [init_key]; q = collections.deque([init_key])
+    while q:
+        s_ = q.popleft()
+        for op, t in adj.get(s_, ()):
+            if t not in parent:
+                parent[t] = (s_, op); order.append(t); q.append(t)
+    pending = collections.deque(order)
+
+    def path_from_init(dst):
+        path = []
+        while parent[dst] is not None:
+            p_, op = parent[dst]; path.append((op, dst)); dst = p_
+        return list(reversed(path))
+
+    def bfs(src, limit):
+        """nearest state with an uncovered edge, looking at no more than `limit` states"""
         prev = {src: None}; q = collections.deque([src])
-        while q:
+        while q and len(prev) <= limit:
             s = q.popleft()
             if todo.get(s):
                 path = []
@@ -283,15 +299,14 @@ def tour(edges, init_key=None, maxseg=400, key=lambda s: json.dumps(s, sort_keys
         if todo.get(cur) and len(seg) < maxseg:
             i = todo[cur].pop(); op, t = adj[cur][i]; seg.append(op); cur = t; remaining -= 1
             continue
-        path = bfs(cur) if len(seg) < maxseg else None
+        path = bfs(cur, 3000) if len(seg) < maxseg else None
         if path is None:
             if seg: out.append(seg)
             seg = []; cur = init_key
-            if not todo.get(cur):
-                path = bfs(cur)
-                if path is None:
-                    break
-                for op, t in path: seg.append(op); cur = t
+            while pending and not todo.get(pending[0]): pending.popleft()
+            if not pending:
+                break                   # what is left cannot be reached from the initial state
+            for op, t in path_from_init(pending[0]): seg.append(op); cur = t
             continue
         for op, t in path: seg.append(op); cur = t
     if seg: out.append(seg)
